@@ -32,7 +32,11 @@ RULE = ("lev: autocorrelation lags synthesised from chosen rational reflection v
         "the LIBRARY multiply the denominator out of first-order sections whose conjugate pairs are complex numbers "
         "(harness class ExactC: exact, complex-typed even when real valued, no ordering; Python complex with dyadic "
         "non-critical roots), members of a pair adjacent or not, real or complex-typed gains; histories add ExactC and "
-        "complex twins.")
+        "complex twins. Plain int / float filters g * (monic small-integer polynomial), g in +-{1,2,3,4,7,8,16,49,64,98,"
+        "103,107,128}: the region where the double-precision computation is exact by construction, so the exact "
+        "verdict is demanded. Histories also mutate in place (pop, append, setitem, clear, popitem) the lists / dicts "
+        "returned by .numerator .denominator .numlist .denlist .numdict .dendict of a filter (and of the filter "
+        "returned by levinson_durbin) between calls on the same object.")
 EXHAUSTIVE = {"quick": False, "thorough": False}
 trusted_base = ["coefficients are exact rationals (ExactQ); the float 0.0 that Poly returns for an absent coefficient is "
                 "absorbed exactly",
@@ -408,6 +412,9 @@ def run_stab(c):
     if c.get("build", "list") in ("cx", "cf"):
       roots = [(unfr(x), unfr(y)) for x, y in c["roots"]]
       filt = 1 / sections_filter(roots, unfr(c["gain"]), c["build"], c.get("gain_complex", False), c.get("ord", 0))
+    elif c.get("build") in ("fl", "in"):          # plain Python numbers, exact by construction (see gen_stab3)
+      conv = float if c["build"] == "fl" else int
+      filt = audiolazy.ZFilter([conv(1)], [conv(unfr(p)) for p in c["den"]])
     else:
       den = [ExactQ(unfr(p)) for p in c["den"]]
       filt = audiolazy.ZFilter([ExactQ(1)], den)
@@ -498,7 +505,7 @@ def _conv(elt):
 
 
 def gen_hist(tier, rng):
-  n = 260 if tier == "quick" else 3000
+  n = 220 if tier == "quick" else 3000
   for idx in range(n):
     kind = idx % 5
     if kind in (0, 1):                      # stability verdicts: twins of the same monic denominator
@@ -638,6 +645,25 @@ def _interleaved(audiolazy, filt, cap):
   return {"ks": outs[0], "err": errs[0]}
 
 
+def _mutate(obj, attr, op):
+  """In-place mutation of a container the library handed out (a caller is free to do that with a returned list)."""
+  try:
+    cont = getattr(obj, attr)
+    if isinstance(cont, dict):
+      if op == "clear": cont.clear()
+      elif op == "set0": cont[0] = 99
+      elif len(cont): cont.popitem()
+    else:
+      if op == "clear": del cont[:]
+      elif op == "append": cont.append(7)
+      elif op == "set0" and len(cont): cont[0] = 99
+      elif op == "poplast" and len(cont): cont.pop()
+      elif len(cont): cont.pop(0)
+    return "ok"
+  except Exception as e:
+    return type(e).__name__
+
+
 def run_hist(c):
   import audiolazy
   filters = {k: _build_filter(v) for k, v in c.get("filters", {}).items()}
@@ -661,12 +687,18 @@ def run_hist(c):
         try: after = [_fr_safe(x) for x in obj]
         except Exception as e: after = [[type(e).__name__]]
       o = {"lev": lev, "pc": pc, "after": after}
+      if st[0] == "levpc" and filt is not None and len(st) > 3 and st[3]:
+        o["mut"] = _mutate(filt, st[3][0], st[3][1])
       if st[0] == "levpc" and filt is not None:       # parcor again on the SAME returned filter, then interleaved
         o["pc_again"] = observe_parcor(lambda: filt, cap)
         o["pc_inter"] = _interleaved(audiolazy, filt, cap)
       out.append(o)
+    elif st[0] == "mut":
+      out.append({"mut": _mutate((filters if st[1] == "filters" else pcs)[st[2]], st[3], st[4])})
     elif st[0] == "pc2":
       filt = pcs[st[1]]
+      if len(st) > 2 and st[2]:
+        _mutate(filt, st[2][0], st[2][1])
       cap = len(c["pcs"][st[1]]["num"]) + 8
       out.append({"pc_again": observe_parcor(lambda: filt, cap), "pc_inter": _interleaved(audiolazy, filt, cap)})
   return {"steps": out}
@@ -698,6 +730,8 @@ def lit_hist(c, o):
       if st[0] == "levpc" and "num" in so["lev"] and spec["elt"] == "q":
         lits.append("HPc %s %s %s %s" % (ql(so["lev"]["num"]), ql([[1, 1]]),
                                         obs_lit(so["pc_again"], pc_lit), obs_lit(so["pc_inter"], pc_lit)))
+    elif st[0] == "mut":
+      lits.append("HExn %s %s" % (L.string(so.get("mut", "missing")), L.string("ok")))
     elif st[0] == "pc2":
       spec = c["pcs"][st[1]]
       lits.append("HPc %s %s %s %s" % (ql(spec["num"]), ql(spec["den"]),
@@ -740,7 +774,7 @@ def gen_stab2(tier, rng):
       yield ccase([rt], g, "cx", ["cx", "exh", cls([rt])], k)
       other = (ALL_ROOTS[k % len(ALL_ROOTS)][0], F(0))
       yield ccase([rt, other], g, "cx", ["cx", "exh", cls([rt, other])], k)
-  for _ in range(120 if tier == "quick" else 1200):
+  for _ in range(90 if tier == "quick" else 1200):
     k += 1
     target = rng.randrange(2, 7 if tier == "quick" else 9)
     roots, deg = [], 0
@@ -798,3 +832,85 @@ def run_pc2(c):
 FAMILIES["pc"] = Family("pc", IMPORTS, "pcase", "corr_pc", "holds_pc", gen_pc2, run_pc2, lit_pc, nontrivial_pc, timeout=30)
 # keep the histories last (they were registered before the two families above were replaced)
 FAMILIES["hist"] = FAMILIES.pop("hist")
+
+
+# ------------------------------------------------------------------ round 3 (u1): plain int / float filters, gains
+# Region where the unchanged code is exact in double precision BY CONSTRUCTION (decided from the inputs alone): the
+# denominator is g * (monic polynomial with small INTEGER coefficients), g a non-zero integer, all products small
+# integers.  Then den / den[0] divides multiples of g by g (exact), the first reflection coefficient is the integer
+# a_n, and the verdict is reached before any rounding: |a_n| > 1 stops `all` at once, |a_n| = 1 raises
+# ZeroDivisionError -> ParCorError -> False (1 - 1.0 ** 2 == 0.0), a_n = 0 is dropped by Poly.  Roots with integer
+# parts give such polynomials; the expected verdict is "all chosen roots inside" (only the root 0 is).
+INT_ROOTS = [(F(0), F(0)), (F(1), F(0)), (F(-1), F(0)), (F(2), F(0)), (F(-3), F(0)),
+             (F(0), F(1)), (F(1), F(1)), (F(0), F(2)), (F(-1), F(2))]
+INT_GAINS = [1, 2, 3, 4, 7, 8, 16, 49, 64, 98, 103, 107, 128]
+
+
+def gen_stab3(tier, rng):
+  for c in gen_stab2(tier, rng):
+    yield c
+  def icase(roots, g, build, tags):
+    den = den_from_roots(F(g), roots)
+    assert all(x.denominator == 1 and abs(x) < 2 ** 40 for x in den)
+    return {"roots": [[fr(x), fr(y)] for x, y in roots], "gain": fr(F(g)), "den": [fr(x) for x in den],
+            "build": build, "tags": tags}
+  k = 0
+  for rt in INT_ROOTS:                              # every integer root / pair alone, every gain, both signs
+    for g in INT_GAINS:
+      k += 1
+      if tier == "quick" and k % 2 and g not in (49, 98, 103, 107):
+        continue
+      yield icase([rt], g if k % 3 else -g, "fl" if k % 2 else "in", ["intfloat", "exh", "n=1"])
+  for _ in range(120 if tier == "quick" else 1500):
+    roots = [rng.choice(INT_ROOTS) for _ in range(rng.randrange(0, 4))]
+    g = rng.choice(INT_GAINS) * rng.choice([1, -1])
+    yield icase(roots, g, rng.choice(["fl", "in"]), ["intfloat", "random", "n=%d" % len(roots)])
+
+
+FAMILIES["stab"] = Family("stab", IMPORTS, "scase", "corr_stab", "holds_stab", gen_stab3, run_stab, lit_stab,
+                          nontrivial_stab, timeout=30)
+
+
+# ------------------------------------------------------------------ round 3 (u2): containers handed out by the library
+# .numerator / .denominator / .numlist / .denlist / .numdict / .dendict of a filter (also of the filter returned by
+# levinson_durbin) are mutated in place between calls on the SAME filter object; parcor / parcor_stable afterwards
+# must be unaffected (the per-call model on the original values).
+MUT_LISTS = ["numerator", "denominator", "numlist", "denlist"]
+MUT_DICTS = ["numdict", "dendict"]
+MUT_OPS = ["pop0", "poplast", "append", "set0", "clear"]
+
+
+def _mutspec(rng):
+  if rng.random() < 0.75:
+    return [rng.choice(MUT_LISTS), rng.choice(MUT_OPS)]
+  return [rng.choice(MUT_DICTS), rng.choice(["clear", "set0", "popitem"])]
+
+
+def gen_hist2(tier, rng):
+  for c in gen_hist(tier, rng):
+    yield c
+  for _ in range(90 if tier == "quick" else 1000):
+    roots, deg, target = [], 0, rng.randrange(1, 6)
+    while deg < target:
+      rt = rng.choice(ALL_ROOTS); d = 1 if rt[1] == 0 else 2
+      if deg + d > target: continue
+      roots.append(rt); deg += d
+    g = rng.choice(GAINS)
+    filters = {"q0": {"roots": [[fr(x), fr(y)] for x, y in roots], "gain": fr(g), "elt": rng.choice(["q", "q", "c"]),
+                      "den": [fr(x) for x in den_from_roots(g, roots)], "build": rng.choice(["list", "expr"])}}
+    p = rng.randrange(1, 6)
+    ks = [rng.choice(KS_IN + KS_OUT[:1]) for _ in range(p)]
+    d = rng.choice([F(1), F(2), F(-1, 3)])
+    pcs = {"P": {"num": [fr(a * d) for a in rebuild_first_to_last(ks)], "den": [fr(d)], "build": rng.choice(["list", "expr"])}}
+    r = lags_from_ks([rng.choice(KS_IN) for _ in range(rng.randrange(1, 5))], rng.choice(R0S))
+    lags = {"L": {"vals": [fr(x) for x in r], "kind": "list", "elt": "q"}}
+    blocks = [[["stab", "q0"], ["mut", "filters", "q0"] + _mutspec(rng), ["stab", "q0"]],
+              [["pc2", "P", None], ["mut", "pcs", "P"] + _mutspec(rng), ["pc2", "P", _mutspec(rng)]],
+              [["levpc", "L", rng.choice([None, len(r)]), _mutspec(rng)], ["lev", "L", None]]]
+    rng.shuffle(blocks)
+    steps = [st for b in blocks[:rng.randrange(1, 4)] for st in b]
+    yield {"filters": filters, "lags": lags, "pcs": pcs, "steps": steps, "tags": ["mutate-returned", "blocks=%d" % (len(steps) // 2)]}
+
+
+FAMILIES["hist"] = Family("hist", IMPORTS, "hcase", "corr_hist", "holds_hist", gen_hist2, run_hist, lit_hist,
+                          nontrivial_hist, timeout=30)
